@@ -35,7 +35,7 @@ func linFilter(e vhook.Event) bool {
 }
 
 type linStats struct {
-	Runs, Ops, WritesOK, ReadsOK, Fails, Faults, Upgrades int
+	Runs, Ops, WritesOK, ReadsOK, Fails, Faults, Upgrades, Snapshots int
 	FinalMismatch                                          []string
 	Nodes                                                  []int
 }
@@ -280,7 +280,7 @@ func clusterTrace(args []string) error {
 				case <-time.After(time.Duration(150+frng.Intn(350)) * time.Millisecond):
 				}
 				l := c.Leader(3 * time.Second)
-				kind := frng.Intn(6)
+				kind := frng.Intn(7)
 				mu.Lock()
 				st.Faults++
 				mu.Unlock()
@@ -330,6 +330,30 @@ func clusterTrace(args []string) error {
 					time.Sleep(time.Duration(800+frng.Intn(900)) * time.Millisecond)
 					c.nw.Heal()
 					emit("", "note", "fault", "heal")
+				case kind == 6 && l != nil:
+					// a follower falls behind while the others snapshot and truncate their logs: after the heal it
+					// can only catch up through InstallSnapshot (fsm.restore on a live node)
+					fl := c.Followers()
+					if len(fl) > 0 {
+						v := fl[frng.Intn(len(fl))]
+						emit("", "note", "fault", "lag-and-snapshot", "node", v.ID)
+						c.nw.Isolate(v.ID, ids)
+						time.Sleep(time.Duration(400+frng.Intn(500)) * time.Millisecond)
+						nodesMu.RLock()
+						for _, n := range c.nodes {
+							if n.ID != v.ID && !n.stopped {
+								if err := n.Store.Snapshot(1); err == nil {
+									mu.Lock()
+									st.Snapshots++
+									mu.Unlock()
+								}
+							}
+						}
+						nodesMu.RUnlock()
+						time.Sleep(time.Duration(100+frng.Intn(200)) * time.Millisecond)
+						c.nw.Heal()
+						emit("", "note", "fault", "heal")
+					}
 				case kind == 4:
 					// graceful restart of a random node
 					nodesMu.RLock()
